@@ -12,6 +12,7 @@ theorem step_read_time (s s' : State) (t c : Nat) (e : Ev) (h : stepCaller s t c
        ((∃ x d, e = .recv x (.data d)) ∧ (s'.callers c).lastT = t ∧ (s'.callers c).emptyAt = none))) ∨
     (s'.callers c).pc ≠ .read := by
   cases e <;> simp only [stepCaller, hp] at h <;> try (simp at h)
+  all_goals (try (simp only [connGone] at h))
   all_goals (repeat' (split at h))
   all_goals (try (simp at h; done))
   all_goals (try (simp only [Option.some.injEq] at h))
@@ -34,9 +35,11 @@ theorem step_send_time (s s' : State) (t c x conn n : Nat) (d : Bytes) (h : step
     · simp only [Option.some.injEq] at h; subst h; simp
   · simp only [Option.some.injEq] at h; subst h; simp at hp
 
-theorem step_recv_empty_pc (s s' : State) (t c x : Nat) (h : stepCaller s t c (.recv x .empty) = some s') :
+theorem step_recv_empty_pc (s s' : State) (t c x : Nat) (h : stepCaller s t c (.recv x .empty) = some s')
+    (hf : identFree (s.callers c)) (hx : (s.callers c).pc ≠ .readX) :
     (s.callers c).pc = .read := by
-  cases hpc : (s.callers c).pc <;> simp only [stepCaller, hpc] at h <;> first | rfl | (simp at h)
+  cases hpc : (s.callers c).pc <;> simp only [stepCaller, hpc] at h <;>
+    first | rfl | (simp at h; done) | (exfalso; exact hx hpc) | (exfalso; simp [identFree, identPc, hpc] at hf)
 
 /-! ### `lastDataTime` under extension of the log -/
 
@@ -228,21 +231,22 @@ theorem einv_step {cfg : Cfg} {log : Log} {s s' : State} (e : TEv) (hcfg : s.cfg
         · intro x a b d hx hxc; rw [hx] at hwho; simp only [Ev.who, Option.some.injEq] at hwho; omega
         · intro d hx; rw [hx] at hwho; simp only [Ev.who, Option.some.injEq] at hwho; exact hcc hwho
 
-theorem einv_exec_gen {cfg : Cfg} : ∀ (evs pre : List TEv) (s0 s : State), TInv cfg pre s0 → EInv cfg pre s0 →
-    exec s0 evs = some s → EInv cfg (pre ++ evs) s
-  | [], pre, s0, s, _, hv, h => by simp [exec] at h; subst h; simpa using hv
-  | e :: es, pre, s0, s, ht, hv, h => by
+theorem einv_exec_gen {cfg : Cfg} (hid : cfg.ident = []) : ∀ (evs pre : List TEv) (s0 s : State), Inv pre s0 →
+    TInv cfg pre s0 → EInv cfg pre s0 → exec s0 evs = some s → EInv cfg (pre ++ evs) s
+  | [], pre, s0, s, _, _, hv, h => by simp [exec] at h; subst h; simpa using hv
+  | e :: es, pre, s0, s, hi, ht, hv, h => by
     simp only [exec] at h
     cases hst : step s0 e with
     | none => simp [hst] at h
     | some s1 =>
       simp only [hst] at h
-      have := einv_exec_gen es (pre ++ [e]) s1 s (tinv_step e ht hst) (einv_step e ht.cfg_eq hv hst) h
+      have := einv_exec_gen hid es (pre ++ [e]) s1 s (inv_step e hi hst) (tinv_step e hi hid ht hst)
+        (einv_step e ht.cfg_eq hv hst) h
       simpa using this
 
-theorem einv_exec (cfg : Cfg) (cbs : List Nat) (evs : List TEv) (s : State)
+theorem einv_exec (cfg : Cfg) (cbs : List Nat) (evs : List TEv) (s : State) (hid : cfg.ident = [])
     (h : exec { cfg := cfg, cbsReg := cbs } evs = some s) : EInv cfg evs s := by
   have h0 : EInv cfg [] { cfg := cfg, cbsReg := cbs } := ⟨fun c hp => by simp at hp⟩
-  simpa using einv_exec_gen evs [] _ s (tinv_init cfg cbs) h0 h
+  simpa using einv_exec_gen hid evs [] _ s (inv_init cfg cbs) (tinv_init cfg cbs) h0 h
 
 end Frappy.Comm
